@@ -59,6 +59,10 @@ fn any_ser<'s, 'w>(writer: &'s mut Cur<'w>, fds: &'s mut FdList, signature: &'st
     (ser, big)
 }
 
+fn ser_state_untouched(ser: &Ser<'_, '_>, sig: &'static Signature) -> bool {
+    ser.0.value_sign.is_none() && core::ptr::eq(ser.0.signature, sig) && counters(&ser.0.container_depths) == (0, 0, 0)
+}
+
 #[cfg(kani)]
 fn any_wf_depths() -> ContainerDepths {
     let d = mk_depths(kani::any(), kani::any(), kani::any());
@@ -144,8 +148,11 @@ macro_rules! ser_fixed_unit {
             let r = serde::Serializer::$method(&mut *ser, v);
             obl!($o_ok, r.is_ok());
             let bw1 = ser.0.bytes_written;
+            // frame on the serializer state: a basic value leaves signature, pending variant signature and depths alone
+            let state_ok = ser_state_untouched(&ser, $sig);
             let wpos = cur.position() as usize;
             obl!($o_adv, bw1 == bw0 + p + size && wpos == w0 + p + size);
+            assert!(state_ok, "C01.ser_basic.serializer_state_frame");
             let conv: fn($ty) -> u64 = $to_u64;
             let i: usize = kani::any();
             kani::assume(i < 24);
@@ -277,8 +284,12 @@ macro_rules! ser_str_unit {
             obl!($o_ok, r.is_ok());
             let total = p + lw + l + 1;
             let bw1 = ser.0.bytes_written;
+            // frame on the serializer state: a string / object path / signature VALUE (not the signature of a variant)
+            // leaves the current signature, the pending variant signature (`value_sign`) and the depths alone
+            let state_ok = ser_state_untouched(&ser, $sig);
             let wpos = cur.position() as usize;
             obl!($o_adv, bw1 == bw0 + total && wpos == w0 + total);
+            assert!(state_ok, "C01.ser_str.serializer_state_frame");
             let i: usize = kani::any();
             kani::assume(i < 32);
             if i < w0 || i >= w0 + total {
